@@ -33,9 +33,11 @@ ViewsOf(seq) == [ key \in { <<seq[i].vk, seq[i].p>> : i \in DOMAIN seq } |->
 Proj(n) == [p |-> n.p, kind |-> n.kind, size |-> IF n.kind = "file" THEN n.size ELSE PZero,
             cid |-> IF n.kind = "file" THEN n.cid ELSE "", target |-> IF n.kind = "link" THEN n.target ELSE << >>]
 ProjTree(t) == { Proj(n) : n \in t }
+(* the same, ignoring size and content of the files in wild                  *)
+ProjW(n, wild) == IF n.p \in wild /\ n.kind = "file" THEN [Proj(n) EXCEPT !.size = PZero, !.cid = "?"] ELSE Proj(n)
+ProjTreeW(t, wild) == { ProjW(n, wild) : n \in t }
 
-MaxConn == 64
-Fresh == [st |-> "none", cs |-> InitCs]
+NoConns == [c \in {} |-> [st |-> "none", cs |-> InitCs]]
 
 IsEvent(e) == l <= Len(Trace) /\ Trace[l].ev = e /\ l' = l + 1
 
@@ -64,7 +66,7 @@ Matches(e, o) ==
     [] OTHER           -> o.k = e.k /\ FieldsMatch(e, o)
 
 (* ------------------------------------------------------------- actions *)
-TraceInit == TLCSet(1, 0) /\ l = 1 /\ fs = {} /\ views = << >> /\ aw = FALSE /\ conn = [c \in 1..MaxConn |-> Fresh]
+TraceInit == TLCSet(1, 0) /\ l = 1 /\ fs = {} /\ views = << >> /\ aw = FALSE /\ conn = NoConns
 
 TraceWorld ==
   /\ IsEvent("World")
@@ -72,13 +74,13 @@ TraceWorld ==
        /\ fs' = SetOf(e.nodes)
        /\ views' = ViewsOf(e.views)
        /\ aw' = e.aw
-       /\ conn' = [c \in 1..MaxConn |-> Fresh]
+       /\ conn' = NoConns
 
 TraceConnect ==
   /\ IsEvent("Connect")
   /\ LET c == Trace[l].c IN
-       /\ conn[c].st = "none"
-       /\ conn' = [conn EXCEPT ![c] = [st |-> "serving", cs |-> InitCs]]
+       /\ c \notin DOMAIN conn
+       /\ conn' = [x \in DOMAIN conn \cup {c} |-> IF x = c THEN [st |-> "serving", cs |-> InitCs] ELSE conn[x]]
   /\ UNCHANGED <<fs, views, aw>>
 
 (* a change of the tree stales every listing cursor walking a changed dir  *)
@@ -92,15 +94,16 @@ TraceReq ==
   /\ IsEvent("Req")
   /\ LET e == Trace[l]
          c == e.c
-     IN /\ conn[c].st = "serving"
+     IN /\ c \in DOMAIN conn
+        /\ conn[c].st = "serving"
         /\ e.hang = FALSE
         /\ \E o \in Handle(conn[c].cs, fs, e.req, aw, views) :
              /\ Matches(o.resp, e.resp)
              /\ o.close = e.closed
              /\ IF e.mut
-                THEN /\ ProjTree(SetOf(e.tree)) = ProjTree(o.fs)
+                THEN /\ ProjTreeW(SetOf(e.tree), o.wild) = ProjTreeW(o.fs, o.wild)
                      /\ fs' = SetOf(e.tree)
-                ELSE /\ ProjTree(o.fs) = ProjTree(fs)
+                ELSE /\ ProjTreeW(o.fs, o.wild) = ProjTreeW(fs, o.wild)
                      /\ fs' = fs
              /\ IF e.closed
                 THEN e.handles = 0      \* teardown releases everything (LedgerBalanced)
@@ -114,6 +117,7 @@ TraceReq ==
 TraceClose ==
   /\ IsEvent("Close")
   /\ LET e == Trace[l] IN
+       /\ e.c \in DOMAIN conn
        /\ conn[e.c].st = "serving"
        /\ e.handles = 0
        /\ conn' = [conn EXCEPT ![e.c] = [st |-> "closed", cs |-> InitCs]]
